@@ -1,4 +1,5 @@
 #!/bin/bash
+export VERIF_EVIDENCE_DIR=/tmp/verif-scratch-evidence  # keep /verif/evidence for runs against the unchanged /repo
 # usage: seedrun.sh <seed> <property>... : runs the quick checks against a scratch worktree with the seeded change applied
 id=$1; shift
 wt=/tmp/run_$id
